@@ -36,8 +36,12 @@ def _tokens(w, src):
 def _comments_and_literals(src, toks):
     b = src.encode()
     comments, literals = [], []
+    prev = None
     for s0, e0, name in toks:
         t = b[s0:e0].decode("utf-8", "replace")
+        was, prev = prev, name
+        if name == "StringLiteral" and was == "Colon":
+            continue        # the format options of a placeholder: compared as parsed (AST), the formatter may normalise their spelling
         if name in ("CommentSingle", "CommentMulti"):
             comments.append(" ".join(t.split()))
         elif name == "Number":
@@ -53,7 +57,9 @@ def shape_tags(src, opts):
     tags = []
     lines = src.split("\n")
     if re.search(r"\bimport\s+\*", src): tags.append("import-star")
-    if re.search(r"['\"][^'\"\n]*\{[^{}'\"\n]*:[^{}'\"\n]*\}", src): tags.append("format-spec")
+    # F-F2: format options with a representation character (`{z:x}`, `{v:08.2e}`, `{v:?}`) or an empty option (`{v:}`); options made
+    # of fill / alignment / zero flag / width / precision only are kept by the formatter and are judged without a mask
+    if re.search(r"['\"][^'\"\n]*\{[^{}'\"\n]*:([^{}'\"\n]*[?xXobeE])?\}", src): tags.append("format-spec")
     if re.search(r"['\"][^'\"\n]*\{[^}'\"\n]*['\"]", src): tags.append("string-in-placeholder")
     if re.search(r",\s*,", src): tags.append("double-comma")
     if "#[fmt:skip]" in src: tags.append("fmt-skip")
@@ -81,6 +87,20 @@ def shape_tags(src, opts):
         if (lines[i].strip().startswith(".") or lines[i].strip().startswith("->")) and trivia(lines[i - 1]):
             tags.append("blank-in-continuation")
             break
+    for i in range(1, len(lines)):
+        t = lines[i].strip()
+        if t.startswith("-") and not t.startswith("->"):
+            before = next((l for l in reversed(lines[:i]) if not trivia(l)), "")
+            if re.sub(r"\s+#(?!-).*$", "", before).rstrip().endswith(",") and len(before) - len(before.lstrip()) != len(lines[i]) - len(lines[i].lstrip()):
+                tags.append("minus-line-in-args")      # F-F18: an argument line starting with `-` at another indentation than the line before it
+                break
+    for i in range(1, len(lines) - 1):
+        if not lines[i].strip() and i + 1 < len(lines) and lines[i + 1].strip():
+            before = next((l for l in reversed(lines[:i]) if not trivia(l)), "")
+            code = re.sub(r"\s+#(?!-).*$", "", before).rstrip()
+            if code.endswith((",", "(", "[", "{")):
+                tags.append("blank-in-list")       # F-F13: a blank line between the elements of a list / call that is spread over lines
+                break
     for i in range(1, len(lines)):
         if lines[i].strip().split(" ")[0] in ("else", "catch", "finally") and trivia(lines[i - 1]):
             tags.append("blank-before-else")
@@ -230,6 +250,20 @@ def _shard(shard, n, tier, seed, budget_s):
                 for mi, (kind, idx, text) in enumerate(token_mutants(p["src"], toks)):
                     if (mi + pi) % step == 0:
                         drive(text, "%s/%s@%d" % (p["id"], kind, idx), False)
+    # interpolation format options without a representation character: fill / alignment / zero flag / width / precision
+    gi = 0
+    for fa in ["", "<", "^", ">", "_<", "*^", "0>", "é>", " <", "->"]:
+        for zero in ["", "0"]:
+            for width in ["", "5", "12"]:
+                for prec in ["", ".0", ".3"]:
+                    spec = fa + zero + width + prec
+                    for vi, (vname, vexpr) in enumerate([("n", "42"), ("pi", "3.14159"), ("s", "'ab'"), ("neg", "-7.5")]):
+                        gi += 1
+                        if gi % n != shard or not spec:
+                            continue
+                        text = "%s = %s\nprint '[{%s:%s}] {%s:%s}|'\nx = \"{%s:%s}\"\nprint x\n" % (vname, vexpr, vname, spec, vname, spec, vname, spec)
+                        rep["format_spec_cells"] = rep.get("format_spec_cells", 0) + 1
+                        drive(text, "format-spec-grid", True)
     # generated programs in canonical and randomised layouts
     i = 0
     profiles = [Gen, GenFn, GenMatch, GenErr]
